@@ -35,7 +35,9 @@ CONSTANTS
 VARIABLES
   table,    \* [Hash -> entry]   the in-memory payments map (volatile)
   own,      \* [Hash -> lifecycle record]  the lifecycle that owns the table entry
-  tails,    \* [Hash -> set of lifecycle records] lifecycles past resolve(), finishing bookkeeping
+  tails,    \* [Hash -> bag of lifecycle records] lifecycles past resolve(), finishing bookkeeping
+            \*   (a bag: two tails can be in exactly the same state, e.g. two replayed HTLC sets
+            \*   that each found the payment complete and both write Succeeded)
   nextAtt,  \* next attempt id (attempt ids are nanosecond timestamps: unique, increasing)
   lastAns,  \* HTLCs answered in the last step (their answer may be lost by a crash)
   budget    \* [pays, crashes, w, r] : remaining exploration budgets
@@ -43,6 +45,13 @@ plugVars == <<table, own, tails, nextAtt, lastAns, budget>>
 vars == <<nodeVars, plugVars>>
 
 HtlcIds == DOMAIN Cat
+
+\* bags as functions [element -> count >= 1]
+EmptyBag == <<>>
+BagAdd(b, r) == IF r \in DOMAIN b THEN [b EXCEPT ![r] = @ + 1]
+                ELSE [x \in (DOMAIN b) \cup {r} |-> IF x = r THEN 1 ELSE b[x]]
+BagDel(b, r) == IF b[r] > 1 THEN [b EXCEPT ![r] = @ - 1]
+                ELSE [x \in (DOMAIN b) \ {r} |-> b[x]]
 
 ---------------------------------------------------------------------------
 (* Call records (same content as the `issue` items of a recorded trace)     *)
@@ -94,7 +103,7 @@ Init ==
   /\ htlc = [i \in HtlcIds |-> Cat[i]]
   /\ table = [h \in Hashes |-> NoEntry]
   /\ own = [h \in Hashes |-> NoLc]
-  /\ tails = [h \in Hashes |-> {}]
+  /\ tails = [h \in Hashes |-> EmptyBag]
   /\ nextAtt = 1
   /\ lastAns = {}
   /\ budget = [pays |-> MaxPays, crashes |-> MaxCrash, w |-> MaxW, r |-> MaxR]
@@ -151,7 +160,7 @@ AfterWait(h, e, o0, ts, ret, drops, na) ==
   LET o == ClearFrame(o0) IN
   IF o.site = "restart"
   THEN CASE ret = "pre"  -> LET c == CS1(h) IN    \* 445-464: resolve, then mark_succeeded as a tail
-                            Res(NoEntry, NoLc, ts \cup {[o EXCEPT !.pc = "markS1", !.main = Issued(c)]},
+                            Res(NoEntry, NoLc, BagAdd(ts, [o EXCEPT !.pc = "markS1", !.main = Issued(c)]),
                                 Settle(h), {c}, drops, 0, na)
          [] ret = "none" -> LET c == CF1(h, o.a, o.inv, o.A) IN   \* 467-480 mark_failed, still owner
                             Res(e, [o EXCEPT !.pc = "rmarkF1", !.main = Issued(c)], ts, NoResp, {c}, drops, 0, na)
@@ -159,10 +168,10 @@ AfterWait(h, e, o0, ts, ret, drops, na) ==
                             Res(e, [o EXCEPT !.pc = "panicked", !.main = NoCall], ts, NoResp, {}, drops, 1, na)
   ELSE \* inside pay(): 110-144, then lifecycle 617-660
        CASE ret = "pre"  -> LET c == CS1(h) IN
-                            Res(NoEntry, NoLc, ts \cup {[o EXCEPT !.pc = "markS1", !.main = Issued(c)]},
+                            Res(NoEntry, NoLc, BagAdd(ts, [o EXCEPT !.pc = "markS1", !.main = Issued(c)]),
                                 Settle(h), {c}, drops, 0, na)
          [] OTHER        -> LET c == CF1(h, o.a, o.inv, o.A) IN   \* none, or wait_payment's error (K3)
-                            Res(NoEntry, NoLc, ts \cup {[o EXCEPT !.pc = "markF1", !.main = Issued(c)]},
+                            Res(NoEntry, NoLc, BagAdd(ts, [o EXCEPT !.pc = "markF1", !.main = Issued(c)]),
                                 FailTramp, {c}, drops, 0, na)
 
 \* both listings are in (or the only one, on error): rest of wait_payment 171-219
@@ -231,18 +240,18 @@ OwnerDeliver(h, slot, p) ==
          LET out == o.main.res.r IN
          IF out = "complete"
          THEN LET c == CS1(h) IN
-              {Res(NoEntry, NoLc, ts \cup {[o EXCEPT !.pc = "markS1", !.main = Issued(c)]}, Settle(h), {c}, {}, 0, na)}
+              {Res(NoEntry, NoLc, BagAdd(ts, [o EXCEPT !.pc = "markS1", !.main = Issued(c)]), Settle(h), {c}, {}, 0, na)}
          ELSE IF out = "failed"
          THEN LET c == CF1(h, o.a, o.inv, o.A) IN
-              {Res(NoEntry, NoLc, ts \cup {[o EXCEPT !.pc = "markF1", !.main = Issued(c)]}, FailTramp, {c}, {}, 0, na)}
+              {Res(NoEntry, NoLc, BagAdd(ts, [o EXCEPT !.pc = "markF1", !.main = Issued(c)]), FailTramp, {c}, {}, 0, na)}
          ELSE {StartWait(h, e, o, ts, "pay", na)}
     [] OTHER -> {}
 
 \* Continuation of a TAIL lifecycle t of h (bookkeeping after resolve()).
 TailDeliver(h, t) ==
-  LET ts == tails[h] \ {t}
+  LET ts == BagDel(tails[h], t)
       ok == t.main.res.r = "ok"
-      next(pc, c) == Res(table[h], own[h], ts \cup {[t EXCEPT !.pc = pc, !.main = Issued(c)]}, NoResp, {c}, {}, 0, nextAtt)
+      next(pc, c) == Res(table[h], own[h], BagAdd(ts, [t EXCEPT !.pc = pc, !.main = Issued(c)]), NoResp, {c}, {}, 0, nextAtt)
       fin == Res(table[h], own[h], ts, NoResp, {}, {}, 0, nextAtt)
   IN CASE t.pc = "markS1" -> IF ok THEN next("markS2", CS2(h, t.a, t.inv, t.A)) ELSE fin
        [] t.pc = "markS2" -> fin
@@ -324,7 +333,7 @@ SlotRec(h, d) ==
 Desigs(h) ==
   {Desig("own", NoLc, s, 0) : s \in {"main", "lc", "lp"}}
   \cup {Desig("own", NoLc, "w", p) : p \in DOMAIN own[h].waits}
-  \cup {Desig("tail", t, "main", 0) : t \in tails[h]}
+  \cup {Desig("tail", t, "main", 0) : t \in DOMAIN tails[h]}
 
 WithSlot(rec, slot, p, s) ==
   CASE slot = "main" -> [rec EXCEPT !.main = s] [] slot = "lc" -> [rec EXCEPT !.lc = s]
@@ -334,7 +343,7 @@ SetSlot(h, d, s) ==
   IF d.who = "own"
   THEN /\ own' = [own EXCEPT ![h] = WithSlot(own[h], d.slot, d.p, s)]
        /\ UNCHANGED tails
-  ELSE /\ tails' = [tails EXCEPT ![h] = (@ \ {d.t}) \cup {WithSlot(d.t, d.slot, d.p, s)}]
+  ELSE /\ tails' = [tails EXCEPT ![h] = BagAdd(BagDel(@, d.t), WithSlot(d.t, d.slot, d.p, s))]
        /\ UNCHANGED own
 
 FaultsFor(c) ==
@@ -350,7 +359,7 @@ Exec(h, d, fault) ==
   /\ s.c.kind = "pay" => budget.pays > 0
   /\ SetSlot(h, d,
              [s EXCEPT !.st = IF s.c.kind = "pay" THEN "running" ELSE "executed", !.res = ExecRes(s.c, fault)])
-  /\ EnvOnly([t |-> "exec", c |-> s.c, fault |-> fault])
+  /\ EnvOnly([t |-> "exec", who |-> d.who, c |-> s.c, fault |-> fault])
   /\ budget' = [budget EXCEPT !.pays = IF s.c.kind = "pay" THEN @ - 1 ELSE @,
                               !.w = IF fault \in {"reject", "lost"} THEN @ - 1 ELSE @,
                               !.r = IF fault = "error" THEN @ - 1 ELSE @]
@@ -383,7 +392,7 @@ PayReturn(h, outcome) ==
 \* the answer of the call reaches the plugin
 Deliver(h, d) ==
   LET s == SlotRec(h, d)
-      ev == [t |-> "deliver", c |-> s.c, res |-> s.res]
+      ev == [t |-> "deliver", who |-> d.who, c |-> s.c, res |-> s.res]
   IN /\ s.st = "executed"
      /\ IF d.who = "own"
         THEN \E r \in OwnerDeliver(h, d.slot, d.p) : Apply(h, ev, r, <<>>)
@@ -413,7 +422,7 @@ Crash(lose) ==
   /\ NodeStep([t |-> "crash", lost |-> IF lose THEN lastAns ELSE {}], NoReaction)
   /\ table' = [h \in Hashes |-> NoEntry]
   /\ own' = [h \in Hashes |-> NoLc]
-  /\ tails' = [h \in Hashes |-> {}]
+  /\ tails' = [h \in Hashes |-> EmptyBag]
   /\ lastAns' = {}
   /\ budget' = [budget EXCEPT !.crashes = @ - 1]
   /\ UNCHANGED nextAtt
